@@ -35,10 +35,10 @@ CLAIMED = {
             'Decides in exact arithmetic: unit independence (dimensional homogeneity); the spline passes through every point, has a continuous second derivative, solves exactly the first-derivative-continuity system (one multiplier per eliminated row, covering back substitution, reads inside defined ranges), has zero second derivative at both ends, reproduces straight lines, and is evaluated as the cubic of the piece whose own range guard holds; every trapezoid term is the exact integral of its segment and the area is the plain sum over all consecutive segments (additive); in the simplex minimiser every stored value is the objective at its own row, the reported value is the objective at the returned point (row 0 after an ascending whole-row sort) and the best vertex is never overwritten, so the result is never worse than the best initial vertex. Floating-point rounding, non-increasing abscissae and convergence of the minimiser are NOT decided.',
             'Trusted: clang AST; seeds (column 0 = X, column 1 = Y, abscissa vector X, prediction Y); literal 0 polymorphic, other literals dimensionless under +,-,compare; sentinel tests against MISSING exempt; Thomas algorithm correctness and real arithmetic. A sweep/back-substitution shape that is not recognised is ANALYSIS-BROKEN (exit 2), never a pass.',
             'DESIGN.md 2/E11, 3/C19, 10.6 (E12)'),
-    'C10': ('guards', 'other', 'control-dependence (guard dominance) analysis with structural recognition of the ApproxEq/MISSING idioms: zero-divisor guard with zero-store arm, not-missing guard over element reads and counters; option-dispatch exhaustiveness and delegation shape',
-            'Decides the guard, missing-value, dispatch and delegation clauses: columns without spread are stored as exactly 0 at all 5 scaling-division sites, missing-coded cells are excluded from the five column statistics (reads and counts), options 1..5 have distinct explicit arms with a >= 0 centring gate, TensorPreprocess delegates block by block. The statistic values each option promises, zero means/unit spread and round-trip equality are NOT decided.',
-            'Trusted: clang AST; ApproxEq recognised as ((v-e) < x) && (x < (v+e)); the MISSING literal from numeric.h.',
-            'DESIGN.md 2/E6b-E7, 3/C10'),
+    'C10': ('guards+reduce', 'other', 'control-dependence (guard dominance) analysis with structural recognition of the ApproxEq/MISSING idioms (zero-divisor guard with zero-store arm, not-missing guard over reads and counters), reduction-form abstraction of the column statistics (closed forms over column sums, polynomial normalisation), option-to-statistic table, sibling cross-check of the fit and apply branches, delegation shape',
+            'Decides: columns without spread are stored as exactly 0 at every scaling-division site and spread statistics are centred sums; MatrixColAverage/Var/SDEV/RMS equal their definitions over the non-missing cells of each column (exact arithmetic); every option 1..5 stores the statistic promised for it and centring subtracts the column average of the same matrix; the apply branch treats every cell as the fit branch does (same guards, same tolerances) and other re-applications use the fit tolerance; TensorPreprocess delegates block by block. Hence, in exact arithmetic, zero means, the promised statistic and fit/apply agreement. Floating-point rounding of transformed values is NOT decided.',
+            'Trusted: clang AST; ApproxEq recognised as ((v-e) < x) && (x < (v+e)); the MISSING literal from numeric.h; real arithmetic; the option order of the property statement (1 SD, 2 RMS, 3 Pareto, 4 range, 5 level).',
+            'DESIGN.md 2/E6b-E7, 3/C10, 10.6 (E14, FA)'),
     'C15': ('guards+reduce', 'other', 'reduction-form abstraction (each figure of merit becomes a closed form over sums on the non-missing truths, composed symbolically and normalised as polynomials; nothing executed) plus control-dependence analysis (not-missing guard over element reads, counters and count divisors), call-graph/argument identity for RMSE, index-role typing of the statistic tables',
             'Decides in exact arithmetic that R2, MSE, RMSE, MAE and BIAS return their defining formulas over the non-missing truths (algebraically equal rewrites normalise to the same form; RMSE^2 = MSE, R2 = 1 and zero errors for perfect prediction, R2 <= 1, MAE <= RMSE are consequences of those formulas), that missing-coded truths are ignored (every read, count and divisor is tied to the test on the truth element of the same index), and that the PLS statistic tables pair prediction column q*lv+j with truth column j into cell (lv, j). Floating-point rounding and every ROC / precision-recall clause are NOT decided.',
             'Trusted: clang AST; ApproxEq/MISSING recognised structurally; role seeds of lsv/layout.py; real arithmetic. A function that is not a plain reduction (running recurrences, early exits) is ANALYSIS-BROKEN, never a pass.',
